@@ -83,7 +83,25 @@ func vRedactOp(t []string) string {
 		fault := vKVc(t, "fault", "200")
 		cmdName := vKVc(t, "cmd", CommandMetrics)
 		var srv *httptest.Server
+		served := 0
 		handler := http.HandlerFunc(func(w http.ResponseWriter, r *http.Request) {
+			served++
+			if strings.HasPrefix(fault, "keepalive-") {
+				// the first request is answered and leaves an idle connection in the client's pool; every later request -
+				// on that reused connection or on a fresh one - is dropped without an answer
+				if served == 1 {
+					w.Write([]byte(`{"return_value":{"ok":true}}`))
+					return
+				}
+				if fault == "keepalive-refused" {
+					srv.Listener.Close() // no new connection either
+				}
+				if hj, ok := w.(http.Hijacker); ok {
+					c, _, _ := hj.Hijack()
+					c.Close()
+				}
+				return
+			}
 			switch fault {
 			case "200":
 				w.Write([]byte(`{"return_value":{"ok":true}}`))
@@ -151,6 +169,13 @@ func vRedactOp(t []string) string {
 		cmd := &RpmCmd{Name: cmdName, Collector: host, License: LicenseKey(key), RunID: "r1", MaxPayloadSize: 1000000}
 		cs := RpmControls{AgentLanguage: "php", AgentVersion: "1", Collectible: CollectibleFunc(func(audit bool) ([]byte, error) { return []byte(`[1]`), nil })}
 		resp := c.Execute(cmd, cs)
+		if strings.HasPrefix(fault, "keepalive-") {
+			// the request that is judged is the one sent after the pooled connection went bad
+			resp = c.Execute(cmd, cs)
+			if resp.Err == nil {
+				resp = c.Execute(cmd, cs)
+			}
+		}
 		// what callers log about a failed request
 		if resp.Err != nil {
 			log.Warnf("app %q with run id %q received %s", "app", "r1", resp.Err)
